@@ -263,3 +263,7 @@ func vJSONFields(v any) []string {
 
 func vSyncEventsOf(obj any) string { return "" }
 func vSyncReset()                  {}
+
+func vSetOpaque(ptr any, tag string)               {}
+func vOpaqueTag(x any) string                      { return "" }
+func vBoundMethodOf(f any, recv any, name string) bool { return true }
